@@ -393,6 +393,56 @@ func c20Special(chk *fw.Check) int {
 				chk.Violation("C20|cycle-"+res.Verdict.String()+"|"+sig+" cleanup-during-refresh", firstLines(res.Detail, 5), nil)
 			}
 		}
+		// (3) an entry which never got loaded (its distribution point serves garbage / is down / a fetch is still pending in
+		// fetch_background) is released by Cleanup like any other
+		for _, kind := range []string{"garbage", "down", "background-pending"} {
+			n++
+			kind := kind
+			sig := fmt.Sprintf("backend=%s never-loaded-entry=%s", be(disk), kind)
+			res := seqWorld(func() {
+				dir := FreshDir("c20u")
+				defer os.RemoveAll(dir)
+				net := world.NewNet()
+				for cycle := 1; cycle <= 2; cycle++ {
+					o := CWOpt{Disk: disk, SigMode: config.SignatureValidationModeVerify, Dir: dir, Net: net, Background: kind == "background-pending"}
+					switch kind {
+					case "garbage":
+						net.Serve(urlA, "garbage", []byte("<html>503 service unavailable</html>"))
+					case "down":
+						net.Down(urlA)
+					case "background-pending":
+						net.Serve(urlA, "v1", v1)
+					}
+					w := NewCW(o)
+					if err := w.Provision(); err != nil {
+						chk.Violation("C20|cycle-provision-fails|"+sig, fmt.Sprintf("cycle %d: %v", cycle, err), nil)
+						return
+					}
+					vsched.Drain()
+					if kind == "background-pending" {
+						vsched.SetHoldSpawns(true)
+					}
+					leaf := world.Leaf(p.CA, bi(901), []string{urlA}, nil)
+					w.Lookup(leaf, world.Chain(leaf, p.CA, p.Root))
+					if err := w.Chk.Cleanup(); err != nil {
+						chk.Violation("C20|cleanup-error|"+sig, err.Error(), nil)
+					}
+					vsched.SetHoldSpawns(false)
+					vsched.ReleaseAll()
+					vsched.Drain()
+					if open := vleveldb.OpenPaths(); len(open) > 0 {
+						chk.Violation("C20|database-handle-open-after-cleanup|"+sig, fmt.Sprintf("cycle %d: %d database handle(s) still open after Cleanup: %v", cycle, len(open), open), nil)
+						return
+					}
+					if _, tmps, other := ListDir(dir); len(tmps) > 0 || len(other) > 0 {
+						chk.Violation("C20|residue-after-cleanup|"+sig, fmt.Sprintf("cycle %d: work_dir holds %v %v", cycle, tmps, other), nil)
+					}
+				}
+			})
+			if res.Verdict != vsched.OK {
+				chk.Violation("C20|cycle-"+res.Verdict.String()+"|"+sig, firstLines(res.Detail, 5), nil)
+			}
+		}
 		n++
 		res := seqWorld(func() {
 			dir := FreshDir("c20x")
